@@ -377,12 +377,15 @@ func callLApply(neg bool, limit int64, doc, patch []byte) string {
 }
 
 func callLMerge(d, p []byte) string {
+	scribbleFirst(legacy.MergePatch, d, p)
 	return guarded(func() string { return lobs(legacy.MergePatch(d, p)) })
 }
 func callLMergeMerge(a, b []byte) string {
+	scribbleFirst(legacy.MergeMergePatches, a, b)
 	return guarded(func() string { return lobs(legacy.MergeMergePatches(a, b)) })
 }
 func callLCreate(a, b []byte) string {
+	scribbleFirst(legacy.CreateMergePatch, a, b)
 	return guarded(func() string { return lobs(legacy.CreateMergePatch(a, b)) })
 }
 func callLEqual(a, b []byte) string {
